@@ -975,12 +975,13 @@ fn mutations(rng: &mut Rng, b: &Base, unsigned: &GReq, signed: &GReq, expires: &
             out(&r, "reject", "dup-signature");
         }
         {
-            // the signature parameter spelled with one more level of percent-encoding
+            // the signature parameter spelled with one more level of percent-encoding: what arrives after query
+            // decoding still carries `%3D` for the base64 padding, so it is not the signature
             let mut r = signed.clone();
             if let Some(p) = r.query.iter_mut().find(|p| p.k == "Signature") {
                 p.raw = Some(pct(&pct(&p.v, "", false), "", false));
             }
-            out(&r, "any", "signature-double-encoded");
+            out(&r, "reject", "signature-double-encoded");
             // '+' left unencoded arrives as a space
             let mut r = signed.clone();
             if let Some(p) = r.query.iter_mut().find(|p| p.k == "Signature") {
